@@ -12,6 +12,8 @@ From SV Require Import Fmt.VtfPixelExpr Fmt.VtfPixelExprProofs Fmt.VtfLayout Fmt
 From SV Require Import Gen.PixelCodecs_gen Gen.VtfLayout_gen Fmt.VtfGenProofs.
 From SV Require Import Fmt.VtfFrameSM Fmt.VtfFrameSMProofs Gen.VtfFrameSM_gen.
 From SV Require Import Bin.Struct Fmt.VtfContainer Fmt.VtfContainerProofs Gen.VtfContainer_gen.
+From SV Require Import Fmt.VtfSides Fmt.VtfSidesProofs.
+From SV Require Import Fmt.VtfWholeFile Fmt.VtfWholeFileProofs Fmt.VtfSheetProofs.
 Import ListNotations.
 
 (** ** Pixels *)
@@ -251,3 +253,177 @@ Proof. exact block_read_back. Qed.
 Theorem c15_tex_roundtrip : forall S t, wf_fmt (s_tex S) = true -> fits (s_tex S) (map VFloat t) = true ->
   forall pre post, exists bs, pack_tex S t = Some bs /\ read_tex S (pre ++ bs ++ post) (List.length pre) = Some t.
 Proof. exact tex_roundtrip. Qed.
+
+(** ** Round 3 *)
+(** Resource flags: for the generated flag expressions of the three directory-entry sites of save() and the flag test of
+    read(), once they pass [flags_ok] (complete enumeration of the one-byte field): an out-of-line resource is stored with
+    bit 0x02 cleared and nothing else changed, an inline one with the bit set; read() fetches the data block for the
+    first and takes the value for the second; the stored flags are a fixpoint of saving again. *)
+Theorem c15_resource_flags_roundtrip : forall c, flags_ok c = true -> forall f, (0 <= f < 256)%Z ->
+  fl_eval (fl_offset c) f = clear2 f /\ fl_eval (fl_inline c) f = set2 f
+  /\ ft_eval (fl_test c) (fl_eval (fl_offset c) f) = true /\ ft_eval (fl_test c) (fl_eval (fl_inline c) f) = false
+  /\ (0 <= clear2 f < 256)%Z /\ (0 <= set2 f < 256)%Z
+  /\ fl_eval (fl_offset c) (clear2 f) = clear2 f /\ fl_eval (fl_inline c) (set2 f) = set2 f.
+Proof. exact flags_roundtrip. Qed.
+Example c15_flags_ok_inhabited : flags_ok good_flagcfg = true.
+Proof. exact flags_ok_inhabited. Qed.
+(** the shape of seeded fault c15_4 (`res.flags & 0x02` for out-of-line entries): flags 0x40 are stored as 0, flags 0x42
+    as 2, which read() takes for an inline value. *)
+Theorem c15_masked_flags_refuted :
+  flags_ok masked_flagcfg = false
+  /\ fl_eval (fl_offset masked_flagcfg) 64 = 0%Z
+  /\ ft_eval (fl_test masked_flagcfg) (fl_eval (fl_offset masked_flagcfg) 66) = false.
+Proof. exact masked_flags_refuted. Qed.
+
+(** Which sides a file contains.  [sidescfg] is read from VTF._depth_range and its callers: if save() asks for the side
+    list of the version it WRITES (and stores a blank frame for a side the object lacks), save() and read() walk the same
+    sides for every object version, written version, cubemap or volume. *)
+Theorem c15_sides_agree : forall c, sides_ok c = true ->
+  forall envmap object written depth, save_sides c envmap object written depth = read_sides c envmap written depth.
+Proof. exact sides_agree. Qed.
+(** Composition with the loop order and the block layout: every (frame, side, mipmap) that read() visits gets, at the
+    offset read() records and with the size read() computes for the level, exactly the bytes save() produced for that
+    key - for any object version and written version (save(version=...)), any number of frames, levels, sides, any
+    contents, behind any prefix (header, resources, thumbnail). *)
+Theorem c15_written_frames_read_back : forall c so ro, sides_ok c = true -> lorder_eqb so ro = true ->
+  forall envmap object written depth mips frames (content : key -> list N) (size : nat -> nat) (pre : list N),
+    (forall k, List.length (content k) = size (k_mip k)) ->
+    Forall (fun ok => slice (pre ++ written_image so mips frames (save_sides c envmap object written depth) content)
+                            (fst ok) (size (k_mip (snd ok))) = content (snd ok))
+           (read_table ro mips frames (read_sides c envmap written depth) size (List.length pre)).
+Proof. exact written_frames_read_back. Qed.
+Theorem c15_good_order_covers : forall mips frames sides f s m, (f < frames)%nat -> In s sides -> (m < mips)%nat ->
+  In {| k_frame := f; k_side := s; k_mip := m |} (walk good_order mips frames sides key0).
+Proof. exact good_order_covers. Qed.
+Example c15_sides_ok_inhabited : sides_ok good_sidescfg = true /\ sphere_rule_ok good_sidescfg = true
+  /\ save_sides good_sidescfg true 4 5 1 = [0; 1; 2; 3; 4; 5]%nat /\ save_sides good_sidescfg true 5 4 1 = [0; 1; 2; 3; 4; 5; 6]%nat.
+Proof. exact sides_ok_inhabited. Qed.
+(** the tree before the round-3 repair (side list of the object's own version): a 7.4 cubemap with two frames written as
+    7.5 - read() is handed the sphere map of frame 0 (toy byte 60) as side 0 of frame 1 *)
+Theorem c15_object_version_sides_refuted :
+  sides_ok pinned_sidescfg = false
+  /\ nth_error (what_read_gets good_order good_order pinned_sidescfg 4 5 2) 6
+     = Some ({| k_frame := 1; k_side := 0; k_mip := 0 |}, [60%N]).
+Proof. exact object_version_sides_refuted. Qed.
+(** the shape of seeded fault c15_3 (read() walks sides outside, frames inside): side 0 of frame 1 is handed the block of
+    side 1 of frame 0 *)
+Theorem c15_face_major_read_refuted :
+  lorder_eqb good_order [VMipRev; VSide; VFrame] = false
+  /\ nth_error (what_read_gets good_order [VMipRev; VSide; VFrame] good_sidescfg 5 5 2) 1
+     = Some ({| k_frame := 1; k_side := 0; k_mip := 0 |}, [10%N]).
+Proof. exact face_major_read_refuted. Qed.
+
+(** ** Round 3: the whole file *)
+(** The container as one statement (was: an executable model tied by correspondence only).  [encode_file] is the file as
+    VTF.save lays it out, [decode_file] what VTF.read gets out of it; [F] are the record formats and [G] the flag
+    expressions regenerated from the source ([fmts_wf F], [flags_ok G]: instance obligations).  For every file of version
+    7.3 or later whose values fit their fields ([vfile_fits]: ids are 3 bytes and not a reserved id, flags a byte, values,
+    offsets and lengths 32 bits, the 15 header values fit the header record): the reader gets the version, the header
+    values with the real header size, the depth, every resource in order with bit 0x02 of the flags normalised (inline
+    values exact, data blocks byte for byte), the particle sheet, and the offsets of the thumbnail and of the first
+    frame - and these offsets are exactly where the thumbnail and the frames are. *)
+Theorem c15_whole_file_73 : forall F G v low_size file,
+  fmts_wf F = true -> flags_ok G = true -> (3 <= v_minor v)%Z -> vfile_fits F G v = true ->
+  encode_file F G v = Some file ->
+  decode_file F G low_size file
+  = Some (v_minor v, set_header_size (v_header v) (hs73 F v), v_depth v, map norm (v_res v), v_sheet v, low_off73 F v, high_off73 F v)
+  /\ exists pre, file = pre ++ v_low v ++ List.concat (v_high v) /\ List.length pre = low_off73 F v.
+Proof. exact whole_file_73. Qed.
+(** Before 7.3: no directory, 15 bytes of padding, the depth only in 7.2 (else it must be 1); read() computes the offsets
+    from the header size it reads and the size of the thumbnail. *)
+Theorem c15_whole_file_pre73 : forall F G v file,
+  fmts_wf F = true -> (v_minor v < 3)%Z -> vfile_fits_old F v = true ->
+  encode_file F G v = Some file ->
+  decode_file F G (List.length (v_low v)) file
+  = Some (v_minor v, set_header_size (v_header v) (hs_old F v), v_depth v, [], None, hs_old F v, (hs_old F v + List.length (v_low v))%nat)
+  /\ exists pre, file = pre ++ v_low v ++ List.concat (v_high v) /\ List.length pre = hs_old F v.
+Proof. exact whole_file_pre73. Qed.
+(** Every fitting file can be written: the premise [encode_file F G v = Some file] above is not a restriction. *)
+Theorem c15_encode_total_73 : forall F G v, fmts_wf F = true -> (3 <= v_minor v)%Z -> vfile_fits F G v = true ->
+  exists file, encode_file F G v = Some file.
+Proof. exact encode_total_73. Qed.
+Theorem c15_encode_total_pre73 : forall F G v, fmts_wf F = true -> (v_minor v < 3)%Z -> vfile_fits_old F v = true ->
+  exists file, encode_file F G v = Some file.
+Proof. exact encode_total_pre73. Qed.
+(** Container, side lists, loop order and block layout composed: a file whose image part is the frames in the order of
+    save()'s loop nest over the sides of the version WRITTEN.  read() - walking its own loop nest over the sides of the
+    version it finds, from the first-frame offset it decodes - finds for every (frame, side, mipmap) exactly the bytes
+    save() produced for that key, the thumbnail at the decoded thumbnail offset, and the metadata as above. *)
+Theorem c15_whole_file_with_frames_73 : forall F G v low_size file c so ro,
+  fmts_wf F = true -> flags_ok G = true -> (3 <= v_minor v)%Z -> vfile_fits F G v = true ->
+  sides_ok c = true -> lorder_eqb so ro = true ->
+  forall envmap object depth mips frames (content : key -> list N) (size : nat -> nat),
+    (forall k, List.length (content k) = size (k_mip k)) ->
+    v_high v = map content (walk so mips frames (save_sides c envmap object (v_minor v) depth) key0) ->
+    encode_file F G v = Some file ->
+    decode_file F G low_size file
+    = Some (v_minor v, set_header_size (v_header v) (hs73 F v), v_depth v, map norm (v_res v), v_sheet v, low_off73 F v, high_off73 F v)
+    /\ slice file (low_off73 F v) (List.length (v_low v)) = v_low v
+    /\ Forall (fun ok => slice file (fst ok) (size (k_mip (snd ok))) = content (snd ok))
+              (read_table ro mips frames (read_sides c envmap (v_minor v) depth) size (high_off73 F v)).
+Proof. exact whole_file_with_frames_73. Qed.
+Theorem c15_whole_file_with_frames_pre73 : forall F G v file c so ro,
+  fmts_wf F = true -> (v_minor v < 3)%Z -> vfile_fits_old F v = true ->
+  sides_ok c = true -> lorder_eqb so ro = true ->
+  forall envmap object depth mips frames (content : key -> list N) (size : nat -> nat),
+    (forall k, List.length (content k) = size (k_mip k)) ->
+    v_high v = map content (walk so mips frames (save_sides c envmap object (v_minor v) depth) key0) ->
+    encode_file F G v = Some file ->
+    decode_file F G (List.length (v_low v)) file
+    = Some (v_minor v, set_header_size (v_header v) (hs_old F v), v_depth v, [], None, hs_old F v, (hs_old F v + List.length (v_low v))%nat)
+    /\ slice file (hs_old F v) (List.length (v_low v)) = v_low v
+    /\ Forall (fun ok => slice file (fst ok) (size (k_mip (snd ok))) = content (snd ok))
+              (read_table ro mips frames (read_sides c envmap (v_minor v) depth) size (hs_old F v + List.length (v_low v))%nat).
+Proof. exact whole_file_with_frames_pre73. Qed.
+(** non-vacuity: the formats of the pinned tree are well formed, the example files (7.4 with an inline resource, a data
+    resource, a sheet; 7.2) fit, are encoded (144 / 88 bytes) and decoded as stated *)
+Example c15_whole_file_inhabited :
+  fmts_wf std_fmts = true /\ vfile_fits std_fmts good_flagcfg (ex_file 4) = true /\ vfile_fits_old std_fmts (ex_file 2) = true
+  /\ option_map (@List.length N) (encode_file std_fmts good_flagcfg (ex_file 4)) = Some 144%nat
+  /\ option_map (@List.length N) (encode_file std_fmts good_flagcfg (ex_file 2)) = Some 88%nat
+  /\ option_map (decode_file std_fmts good_flagcfg 2) (encode_file std_fmts good_flagcfg (ex_file 4))
+     = Some (Some (4%Z, set_header_size ex_header 120, 1%Z,
+                   [([67; 82; 67]%N, 66%Z, RInline 305419896); ([75; 86; 68]%N, 64%Z, RData [1; 2; 3; 4; 5]%N)],
+                   Some [9; 8; 7]%N, 136%nat, 138%nat)).
+Proof. exact whole_file_inhabited. Qed.
+(** the shape of seeded fault c15_4 on a whole file: the data resource with flags 0x42 comes back as the inline value
+    120 - the offset of its data block *)
+Theorem c15_whole_file_masked_flags_refuted :
+  flags_ok masked_flagcfg = false
+  /\ option_map (fun r => match r with Some (_, _, _, res, _, _, _) => res | None => [] end)
+       (option_map (decode_file std_fmts masked_flagcfg 2) (encode_file std_fmts masked_flagcfg (ex_file 4)))
+     = Some [([67; 82; 67]%N, 66%Z, RInline 305419896); ([75; 86; 68]%N, 2%Z, RInline 120)].
+Proof. exact whole_file_masked_flags_refuted. Qed.
+
+(** ** Round 3: particle sheets, and where save() records its offsets *)
+(** The particle-sheet resource (was: record-level theorems + correspondence).  [make_sheet] is SheetSequence.make_data,
+    [read_sheet] SheetSequence.from_resource, over the four record formats regenerated from the source ([sfmts_wf]:
+    instance obligation).  For sheet version 0 or 1, at most 64 sequences with distinct numbers 0..63, every value fitting
+    its field ([sheet_fits]: four coordinates per frame for version 1, at least one for version 0, floats as 32-bit
+    patterns): reading what was written gives the sequences back - numbers, clamp flags, total times, frame durations
+    and texture coordinates, in order; version 0 stores the first coordinate only and the reader repeats it four times. *)
+Theorem c15_sheet_roundtrip : forall S, wf_fmt (s_head S) = true -> wf_fmt (s_seq S) = true -> wf_fmt (s_dur S) = true -> wf_fmt (s_tex S) = true ->
+  forall ver qs bs, sheet_fits S ver qs = true -> make_sheet S ver qs = Some bs ->
+  read_sheet S bs = Some (ver, map (canon_seq ver) qs).
+Proof. exact sheet_roundtrip. Qed.
+(** ... and inside the whole file: the bytes [decode_file] hands to the sheet reader parse to the sequences *)
+Theorem c15_whole_file_sheet_73 : forall F G S v low_size file ver qs sb,
+  fmts_wf F = true -> flags_ok G = true -> (3 <= v_minor v)%Z -> vfile_fits F G v = true ->
+  sfmts_wf S = true -> sheet_fits S ver qs = true -> make_sheet S ver qs = Some sb -> v_sheet v = Some sb ->
+  encode_file F G v = Some file ->
+  exists hdr res lo hi, decode_file F G low_size file = Some (v_minor v, hdr, v_depth v, res, Some sb, lo, hi)
+                        /\ read_sheet S sb = Some (ver, map (canon_seq ver) qs).
+Proof. exact whole_file_sheet_73. Qed.
+Example c15_sheet_inhabited :
+  sfmts_wf std_sfmts = true /\ sheet_fits std_sfmts 1 ex_sheet = true /\ sheet_fits std_sfmts 0 ex_sheet = true
+  /\ option_map (read_sheet std_sfmts) (make_sheet std_sfmts 1 ex_sheet) = Some (Some (1%Z, ex_sheet))
+  /\ option_map (read_sheet std_sfmts) (make_sheet std_sfmts 0 ex_sheet) = Some (Some (0%Z, map (canon_seq 0) ex_sheet))
+  /\ map (canon_seq 0) ex_sheet <> ex_sheet.
+Proof. exact sheet_inhabited. Qed.
+(** The order of the file-writing events of save() (regenerated as [gen_save_events]; [save_events_ok] is an instance
+    obligation): today's order passes; recording the thumbnail offset after the thumbnail was written, or a data-block
+    offset after its length, does not. *)
+Example c15_save_events_inhabited : save_events_ok good_save_events = true.
+Proof. exact save_events_inhabited. Qed.
+Theorem c15_late_offsets_refuted : low_high_ok late_low_events = false /\ set_then_block res_key late_block_events = false.
+Proof. exact late_offsets_refuted. Qed.
